@@ -50,6 +50,8 @@ def tree_hash(repo=None):
     for root, dirs, fs in os.walk(repo):
         dirs[:] = sorted(d for d in dirs if not (root == repo and d in ('target', '.git')))
         for f in sorted(fs):
+            if root == repo and f == '.patch_id':
+                continue      # label written by the patch-set replayer, not part of the tree
             files.append(os.path.join(root, f))
     for p in files:
         rel = os.path.relpath(p, repo)
